@@ -44,7 +44,7 @@ CLAIMED.update({
  'C14': dict(
     technique='abstract interpretation (DROP-HDR typestate for the captured hunk header; ORD-W at header writers) + MIR guarded-by/follows rule for the file-header pairing + must-assign / flush-before-overwrite rules at the section boundary + table rule for the /dev/null file choice',
     text='Decides that a captured hunk header is always handed to an emitter before its state is left, that the composed file header is written only under handled != current and then marked handled, '
-         'that the header-related per-file fields are reassigned on every path of the `diff ` handler and only after the previous section's pending header is flushed, and that the hunk header names minus_file exactly when plus_file is /dev/null. Not decided: path parsing and labels.',
+         'that the header-related per-file fields are reassigned on every path of the `diff ` handler and only after the previous section\'s pending header is flushed, and that the hunk header names minus_file exactly when plus_file is /dev/null. Not decided: path parsing and labels.',
     note=E1_NOTE, design='5/C14'),
 })
 RULE_NOTE = 'Trusts rustc MIR construction + callee resolution, the fact serialisation and the Python rule engines; decides the named structural clauses only (see DESIGN.md).'
